@@ -774,7 +774,11 @@ func c15H3(x *sx, twoReloads bool) {
 	}
 	vsyncrt.Go(func() { feed.ch.Send(cfgNew); wg.Done() })
 	wg.Wait()
-	// when the reloads and the lookups are over, the configuration in force is a new one: the address is refused
+	// when the reloads and the lookups are over, the configuration in force is a new one: the address is refused.
+	// "Over" means the loader has APPLIED what was delivered: a Send on the one-slot feed returns when the value sits in
+	// the channel, which the update loop may not have looked at yet (a lookup asked at that moment is rightly answered
+	// from the old configuration). Quiesce waits until the loop has nothing left to take.
+	vsyncrt.Quiesce()
 	if s, _, err := ld.Get(context.Background(), srvx.Addr4(10, 1, 1, 7, 99)); err == nil {
 		x.fail("H3/stale-after-reload", fmt.Sprintf("after the reload(s) completed a lookup for an address the new configuration refuses was served with secret %q", s))
 	}
